@@ -294,29 +294,52 @@ Definition op_plain : list string := ["02"; "03"; "04"; "05"; "08"; "0b"].
 Definition op_export (s : mstore) : genesis :=
   ("01", rows_of "01" s) :: ("07", rows_of "07" s) :: export_plain op_plain s.
 
-(* SetOperatorInfo overwrites Commission.UpdateTime with the block time of the import *)
-Definition op_init_info (t : Z) (rows : list row) (s : mstore) : mstore :=
+(* SetOperatorInfo overwrites Commission.UpdateTime with the block time of the import; the repaired InitGenesis
+   puts the exported time back when there is one ([-1] encodes Go's zero time).  [keep = false] is the importer
+   as found. *)
+Definition op_init_info_with (keep : bool) (t : Z) (rows : list row) (s : mstore) : mstore :=
   fold_left (fun acc r => sset acc ("01" ++ fst r)
-               (match snd r with VInfo d _ => VInfo d t | v => v end)) rows s.
+               (match snd r with
+                | VInfo d t0 => VInfo d (if keep && negb (t0 =? -1) then t0 else t)
+                | v => v end)) rows s.
+Definition op_init_info : Z -> list row -> mstore -> mstore := op_init_info_with true.
+
+Definition consaddr_of (consaddr : list (string * string)) (v : val) : option string :=
+  match v with
+  | VRaw d => match find (fun x => String.eqb (fst x) d) consaddr with Some x => Some (snd x) | None => None end
+  | _ => None
+  end.
 
 (* setOperatorConsKeyForChainIDUnchecked: 07 key = operator(20 bytes) ++ chain part; rebuilds 09 and,
    through the consensus address of the key ([consaddr]: external, supplied with the case), 0a *)
+Definition op_key_step (consaddr : list (string * string)) (acc : mstore) (r : row) : mstore :=
+  let addr := stake 40 (fst r) in
+  let chain := sdrop 40 (fst r) in
+  let acc1 := sset (sset acc ("07" ++ fst r) (snd r)) ("09" ++ chain ++ addr) (snd r) in
+  match consaddr_of consaddr (snd r) with
+  | Some ca => sset acc1 ("0a" ++ chain ++ ca) (VRaw addr)
+  | None => acc1
+  end.
 Definition op_init_keys (consaddr : list (string * string)) (rows : list row) (s : mstore) : mstore :=
-  fold_left (fun acc r =>
-    let addr := stake 40 (fst r) in
-    let chain := sdrop 40 (fst r) in
-    let acc1 := sset (sset acc ("07" ++ fst r) (snd r)) ("09" ++ chain ++ addr) (snd r) in
-    match snd r with
-    | VRaw d => match find (fun x => String.eqb (fst x) d) consaddr with
-                | Some x => sset acc1 ("0a" ++ chain ++ snd x) (VRaw addr)
-                | None => acc1
-                end
-    | _ => acc1
-    end) rows s.
+  fold_left (op_key_step consaddr) rows s.
 
-Definition op_init (c : ictx) (consaddr : list (string * string)) (g : genesis) : res :=
-  let s1 := op_init_keys consaddr (gsec g "07") (op_init_info (cx_time c) (gsec g "01") []) in
-  Ok (init_plain (filter (fun sec => existsb (String.eqb (fst sec)) op_plain) g) s1).
+(* SetAllPrevConsKeys (08 key = chain part ++ operator): the repaired importer also rebuilds the lookup from
+   the previous key's consensus address to the operator; [lookup = false] is the importer as found *)
+Definition op_prev_step (consaddr : list (string * string)) (acc : mstore) (r : row) : mstore :=
+  let n := (String.length (fst r) - 40)%nat in
+  match consaddr_of consaddr (snd r) with
+  | Some ca => sset acc ("0a" ++ stake n (fst r) ++ ca) (VRaw (sdrop n (fst r)))
+  | None => acc
+  end.
+Definition op_init_prev (lookup : bool) (consaddr : list (string * string)) (rows : list row) (s : mstore) : mstore :=
+  if lookup then fold_left (op_prev_step consaddr) rows s else s.
+
+Definition op_init_with (keep lookup : bool) (c : ictx) (consaddr : list (string * string)) (g : genesis) : res :=
+  let s1 := op_init_keys consaddr (gsec g "07") (op_init_info_with keep (cx_time c) (gsec g "01") []) in
+  let s2 := init_plain (filter (fun sec => existsb (String.eqb (fst sec)) op_plain) g) s1 in
+  Ok (op_init_prev lookup consaddr (gsec g "08") s2).
+Definition op_init : ictx -> list (string * string) -> genesis -> res := op_init_with true true.
+Definition op_init_unrepaired : ictx -> list (string * string) -> genesis -> res := op_init_with false false.
 
 (* =====================================================================================
    plain modules
@@ -610,10 +633,57 @@ Definition check_vcase (c : vcase) : option nat :=
 
 (* the hypotheses of the round-trip theorems, evaluated on the states the implementation actually reaches:
    every dump is key-sorted; dogfood states satisfy [dg_wf], delegation states [de_wf] *)
+
+
+(* ---------- operator: the states on which the (repaired) round trip is exact ---------- *)
+Definition op_survivors : list string := ["01"; "02"; "03"; "04"; "05"; "07"; "08"; "0b"].
+Definition op_info_ok (s : mstore) : bool :=
+  forallb (fun r => match snd r with VInfo _ t => negb (t =? -1) | _ => false end) (rows_of "01" s).
+(* the key written for the reverse lookup of a 07 row / an 08 row *)
+Definition op_lookup07 (consaddr : list (string * string)) (r : row) : option (string * val) :=
+  match consaddr_of consaddr (snd r) with
+  | Some ca => Some (("0a" ++ sdrop 40 (fst r) ++ ca)%string, VRaw (stake 40 (fst r)))
+  | None => None end.
+Definition op_lookup08 (consaddr : list (string * string)) (r : row) : option (string * val) :=
+  let n := (String.length (fst r) - 40)%nat in
+  match consaddr_of consaddr (snd r) with
+  | Some ca => Some (("0a" ++ stake n (fst r) ++ ca)%string, VRaw (sdrop n (fst r)))
+  | None => None end.
+Definition op_rev09 (r : row) : string * val := (("09" ++ sdrop 40 (fst r) ++ stake 40 (fst r))%string, snd r).
+Definition kv_in (s : mstore) (kv : string * val) : bool :=
+  match sget s (fst kv) with Some v => val_eqb v (snd kv) | None => false end.
+Definition okv_in (s : mstore) (o : option (string * val)) : bool :=
+  match o with Some kv => kv_in s kv | None => false end.
+(* only known prefixes, no slash-assets state; infos carry a commission time; the reverse lookups 09 / 0a are
+   exactly those of the current keys (07) and of the previous keys still recorded (08) *)
+Definition op_wf (consaddr : list (string * string)) (s : mstore) : bool :=
+  keys_under ["01"; "02"; "03"; "04"; "05"; "07"; "08"; "09"; "0a"; "0b"] s && op_info_ok s &&
+  forallb (fun r => kv_in s (op_rev09 r) && okv_in s (op_lookup07 consaddr r)) (rows_of "07" s) &&
+  forallb (fun r => okv_in s (op_lookup08 consaddr r)) (rows_of "08" s) &&
+  forallb (fun r => existsb (fun r7 => String.eqb (fst (op_rev09 r7)) ("09" ++ fst r)%string) (rows_of "07" s)) (rows_of "09" s) &&
+  forallb (fun r => existsb (fun r7 => match op_lookup07 consaddr r7 with Some kv => String.eqb (fst kv) ("0a" ++ fst r)%string | None => false end) (rows_of "07" s)
+                 || existsb (fun r8 => match op_lookup08 consaddr r8 with Some kv => String.eqb (fst kv) ("0a" ++ fst r)%string | None => false end) (rows_of "08" s))
+          (rows_of "0a" s).
+
+(* an operator registered at time 100 that replaced its key in the current epoch (previous key recorded under 08) *)
+Definition ex_operator_wf : mstore :=
+  [ (("01" ++ ex_opaddr)%string, VInfo "#info" 100);
+    (("05" ++ hexs "exo1/0xavs/slash1")%string, VRaw "#slash");
+    (("07" ++ ex_opaddr ++ ex_chain)%string, VRaw "#newkey");
+    (("08" ++ ex_chain ++ ex_opaddr)%string, VRaw "#oldkey");
+    (("09" ++ ex_chain ++ ex_opaddr)%string, VRaw "#newkey");
+    (("0a" ++ ex_chain ++ "30eda29d93a85daf26759096e74f939e8903cb66")%string, VRaw ex_opaddr);
+    (("0a" ++ ex_chain ++ "9a010f35bd7270626f934fb382364232a4f0c5e1")%string, VRaw ex_opaddr) ].
+
+(* the hypotheses of the round-trip theorems, evaluated on the states the implementation actually reaches:
+   every dump is key-sorted; dogfood states satisfy [dg_wf], delegation states [de_wf], operator states
+   [op_info_ok] and - except while a replaced key outlives its 08 record - [op_wf] *)
 Definition check_wf (c : case) : option nat :=
   if negb (sortedb (c_before c)) then Some 0%nat
   else if String.eqb (c_module c) "dogfood" then
     (if dg_wf (case_ctx c) (c_consaddr c) (c_before c) then None else Some 1%nat)
   else if String.eqb (c_module c) "delegation" then
     (if de_wf (case_ctx c) (c_aux c) (c_before c) then None else Some 1%nat)
+  else if String.eqb (c_module c) "operator" then
+    (if op_info_ok (c_before c) then (if op_wf (c_consaddr c) (c_before c) then None else Some 2%nat) else Some 1%nat)
   else None.
